@@ -8,19 +8,23 @@ use crate::core::run::FailKind;
 use std::collections::{BTreeMap, BTreeSet, HashMap};
 
 fn viol(sc: &ChanSc, property: &str, class: &str, extra: &[(&str, String)], detail: String) -> Violation {
+  viol_named(sc.flavour.name(), property, class, extra, detail)
+}
+
+pub fn viol_named(flavour: &str, property: &str, class: &str, extra: &[(&str, String)], detail: String) -> Violation {
   let mut facets = BTreeMap::new();
-  facets.insert("flavour".to_string(), sc.flavour.name().to_string());
+  facets.insert("flavour".to_string(), flavour.to_string());
   for (k, v) in extra {
     facets.insert(k.to_string(), v.clone());
   }
   Violation { property: property.into(), class: class.into(), facets, detail }
 }
 
-fn recv_outcome_seen(evs: &[Ev], res: RRes) -> bool {
+pub fn recv_outcome_seen(evs: &[Ev], res: RRes) -> bool {
   evs.iter().any(|e| matches!(&e.k, EvK::Recv { out, .. } if out.res == res))
 }
 
-fn recv_forms_used(evs: &[Ev]) -> String {
+pub fn recv_forms_used(evs: &[Ev]) -> String {
   let mut s: BTreeSet<String> = BTreeSet::new();
   for e in evs {
     if let EvK::Recv { form, out, is_async, .. } = &e.k {
@@ -242,8 +246,14 @@ pub fn evaluate(sc: &ChanSc, run: &ChanRun) -> Vec<Violation> {
     }
   }
 
-  // C04: disconnect protocol
-  {
+  c04_rules(sc.flavour.name(), sc.flavour == Flavour::Oneshot, evs, &mut vs);
+  c09_rules(sc.flavour.name(), evs, &run.ledger, &mut vs);
+  vs
+}
+
+/// C04: disconnect protocol rules that only need handle life-cycle and result events.
+/// `oneshot` relaxes the premature-Disconnected rule once the single value was taken.
+pub fn c04_rules(flavour: &str, oneshot: bool, evs: &[Ev], vs: &mut Vec<Violation>) {
     // when was each handle closed (Ok) / dropped: invocation stamps
     let tx_handles: BTreeSet<u16> = handles(evs, true);
     let rx_handles: BTreeSet<u16> = handles(evs, false);
@@ -253,17 +263,17 @@ pub fn evaluate(sc: &ChanSc, run: &ChanRun) -> Vec<Violation> {
           let own_closed = handle_closed_before(evs, e.handle, false, e.inv);
           // oneshot: once the single value was taken the channel is finished, whoever still
           // holds a sender clone
-          let oneshot_done = sc.flavour == Flavour::Oneshot
+          let oneshot_done = oneshot
             && evs.iter().any(|x| x.ret < e.ret && matches!(&x.k, EvK::Recv { out, .. } if out.res == RRes::Got));
           if out.res == RRes::Disconnected && !own_closed && !oneshot_done {
             // every sender handle must have had close/drop invoked before this return
             let alive: Vec<u16> = tx_handles.iter().copied().filter(|h| !handle_gone_before(evs, *h, true, e.ret)).collect();
             if !alive.is_empty() {
-              vs.push(viol(sc, "C04", "premature_disconnected", &[("form", format!("{form:?}"))], format!("receive returned Disconnected at {} while sender handles {alive:?} were alive", e.ret)));
+              vs.push(viol_named(flavour, "C04", "premature_disconnected", &[("form", format!("{form:?}"))], format!("receive returned Disconnected at {} while sender handles {alive:?} were alive", e.ret)));
             }
           }
           if own_closed && out.res == RRes::Got {
-            vs.push(viol(sc, "C04", "closed_receiver_accepted_op", &[("form", format!("{form:?}"))], format!("receiver handle {} returned a value after its own close()", e.handle)));
+            vs.push(viol_named(flavour, "C04", "closed_receiver_accepted_op", &[("form", format!("{form:?}"))], format!("receiver handle {} returned a value after its own close()", e.handle)));
           }
         }
         EvK::Send { out, form, .. } => {
@@ -271,11 +281,11 @@ pub fn evaluate(sc: &ChanSc, run: &ChanRun) -> Vec<Violation> {
           if out.res == SRes::Closed && !own_closed {
             let alive: Vec<u16> = rx_handles.iter().copied().filter(|h| !handle_gone_before(evs, *h, false, e.ret)).collect();
             if !alive.is_empty() {
-              vs.push(viol(sc, "C04", "premature_closed", &[("form", format!("{form:?}"))], format!("send returned Closed at {} while receiver handles {alive:?} were alive", e.ret)));
+              vs.push(viol_named(flavour, "C04", "premature_closed", &[("form", format!("{form:?}"))], format!("send returned Closed at {} while receiver handles {alive:?} were alive", e.ret)));
             }
           }
           if own_closed && (out.sent > 0 || out.res == SRes::Ok) {
-            vs.push(viol(sc, "C04", "closed_sender_accepted_op", &[("form", format!("{form:?}"))], format!("sender handle {} accepted {:?} (sent {}) after its own close()", e.handle, out.res, out.sent)));
+            vs.push(viol_named(flavour, "C04", "closed_sender_accepted_op", &[("form", format!("{form:?}"))], format!("sender handle {} accepted {:?} (sent {}) after its own close()", e.handle, out.res, out.sent)));
           }
         }
         _ => {}
@@ -290,43 +300,43 @@ pub fn evaluate(sc: &ChanSc, run: &ChanRun) -> Vec<Violation> {
           if out.res == RRes::Disconnected {
             disc.insert(e.handle);
           } else if out.res == RRes::Got && disc.contains(&e.handle) {
-            vs.push(viol(sc, "C04", "value_after_disconnected", &[], format!("receiver handle {} obtained {:?} after it had observed Disconnected", e.handle, out.got)));
+            vs.push(viol_named(flavour, "C04", "value_after_disconnected", &[], format!("receiver handle {} obtained {:?} after it had observed Disconnected", e.handle, out.got)));
           }
         }
         EvK::TxClose { ok } => {
           if *ok && !closed_ok.insert((true, e.handle)) {
-            vs.push(viol(sc, "C04", "close_not_idempotent", &[("side", "tx".into())], format!("second close() of sender handle {} reported Ok", e.handle)));
+            vs.push(viol_named(flavour, "C04", "close_not_idempotent", &[("side", "tx".into())], format!("second close() of sender handle {} reported Ok", e.handle)));
           } else if !*ok && !closed_ok.contains(&(true, e.handle)) {
-            vs.push(viol(sc, "C04", "first_close_failed", &[("side", "tx".into())], format!("first close() of sender handle {} reported CloseError", e.handle)));
+            vs.push(viol_named(flavour, "C04", "first_close_failed", &[("side", "tx".into())], format!("first close() of sender handle {} reported CloseError", e.handle)));
           }
         }
         EvK::RxClose { ok } => {
           if *ok && !closed_ok.insert((false, e.handle)) {
-            vs.push(viol(sc, "C04", "close_not_idempotent", &[("side", "rx".into())], format!("second close() of receiver handle {} reported Ok", e.handle)));
+            vs.push(viol_named(flavour, "C04", "close_not_idempotent", &[("side", "rx".into())], format!("second close() of receiver handle {} reported Ok", e.handle)));
           } else if !*ok && !closed_ok.contains(&(false, e.handle)) {
-            vs.push(viol(sc, "C04", "first_close_failed", &[("side", "rx".into())], format!("first close() of receiver handle {} reported CloseError", e.handle)));
+            vs.push(viol_named(flavour, "C04", "first_close_failed", &[("side", "rx".into())], format!("first close() of receiver handle {} reported CloseError", e.handle)));
           }
         }
         _ => {}
       }
     }
-  }
+}
 
-  // C09: every token dropped exactly once after everything is gone
-  for (id, le) in run.ledger.iter().enumerate() {
+/// C09: every token dropped exactly once after everything is gone.
+pub fn c09_rules(flavour: &str, evs: &[Ev], ledger: &[super::tok::LedgerEntry], vs: &mut Vec<Violation>) {
+  for (id, le) in ledger.iter().enumerate() {
     if le.created == 0 {
       continue;
     }
     if le.dropped > le.created {
-      vs.push(viol(sc, "C09", "double_drop", &[], format!("token {id} created {} time(s), dropped {}", le.created, le.dropped)));
+      vs.push(viol_named(flavour, "C09", "double_drop", &[], format!("token {id} created {} time(s), dropped {}", le.created, le.dropped)));
     } else if le.dropped < le.created {
-      vs.push(viol(sc, "C09", "leak", &[("cancelled", any_cancel(evs).to_string())], format!("token {id} created {} time(s), dropped {} after all handles and futures were gone", le.created, le.dropped)));
+      vs.push(viol_named(flavour, "C09", "leak", &[("cancelled", any_cancel(evs).to_string())], format!("token {id} created {} time(s), dropped {} after all handles and futures were gone", le.created, le.dropped)));
     }
   }
-  vs
 }
 
-fn any_cancel(evs: &[Ev]) -> bool {
+pub fn any_cancel(evs: &[Ev]) -> bool {
   evs.iter().any(|e| match &e.k {
     EvK::Send { out, .. } => out.res == SRes::Cancelled,
     EvK::Recv { out, .. } => out.res == RRes::Cancelled,
@@ -334,7 +344,7 @@ fn any_cancel(evs: &[Ev]) -> bool {
   })
 }
 
-fn handles(evs: &[Ev], tx: bool) -> BTreeSet<u16> {
+pub fn handles(evs: &[Ev], tx: bool) -> BTreeSet<u16> {
   let mut s = BTreeSet::new();
   for e in evs {
     match &e.k {
@@ -359,12 +369,12 @@ fn handles(evs: &[Ev], tx: bool) -> BTreeSet<u16> {
 }
 
 /// the handle's own close() returned Ok before stamp `t`
-fn handle_closed_before(evs: &[Ev], h: u16, tx: bool, t: u64) -> bool {
+pub fn handle_closed_before(evs: &[Ev], h: u16, tx: bool, t: u64) -> bool {
   evs.iter().any(|e| e.handle == h && e.ret <= t && matches!((&e.k, tx), (EvK::TxClose { ok: true }, true) | (EvK::RxClose { ok: true }, false)))
 }
 
 /// close/drop of the handle was *invoked* before stamp `t`
-fn handle_gone_before(evs: &[Ev], h: u16, tx: bool, t: u64) -> bool {
+pub fn handle_gone_before(evs: &[Ev], h: u16, tx: bool, t: u64) -> bool {
   evs.iter().any(|e| e.handle == h && e.inv < t && matches!((&e.k, tx), (EvK::TxClose { .. }, true) | (EvK::TxDrop, true) | (EvK::RxClose { .. }, false) | (EvK::RxDrop, false)))
 }
 
